@@ -297,6 +297,27 @@ impl TaskEnv {
     }
 }
 
+/// Drop tokens: every interpreted script future owns one; `alive()` lists the scripts whose future
+/// (and everything it captured) still exists.
+static TOKENS: Mutex<Vec<((u32, u32), std::sync::Weak<()>)>> = Mutex::new(Vec::new());
+
+pub fn reset_tokens() {
+    TOKENS.lock().unwrap().clear();
+}
+
+pub fn new_token(inst: u32, tid: u32) -> Arc<()> {
+    let t = Arc::new(());
+    TOKENS.lock().unwrap().push(((inst, tid), Arc::downgrade(&t)));
+    t
+}
+
+pub fn alive() -> Vec<[u32; 2]> {
+    let mut v: Vec<[u32; 2]> =
+        TOKENS.lock().unwrap().iter().filter(|(_, w)| w.strong_count() > 0).map(|(k, _)| [k.0, k.1]).collect();
+    v.sort();
+    v
+}
+
 /// Wakes itself once and returns Pending; Ready on the second poll.
 struct YieldOnce(bool);
 impl Future for YieldOnce {
@@ -341,7 +362,9 @@ pub fn run_script(
     code: Arc<Vec<Instr>>,
     mut env: TaskEnv,
 ) -> BoxFuture<'static, ()> {
+    let token = new_token(env.inst, env.tid);
     async move {
+        let _token = token;
         let mut pc: usize = 0;
         while pc < code.len() {
             match &code[pc] {
